@@ -81,6 +81,8 @@ def C11_2_3_4(ctx, facts):
     # candidate started: rows of the process_all trace table (patable.py)
     import patable
     patable.table(ctx, facts)
+    # every finished attempt is reported by exactly one call of join_next (a swallowed failure would delay the next start)
+    patable.join_next_table(ctx, facts)
     f = patable.full_unit(facts, facts.fn(PA))
     home = {f.nkey} | {norm(k) for k in f.inlined}
     starts = [c for g in facts.fns.values() if g.nkey.startswith(("happy_eyeballs", "<happy_eyeballs")) for c in g.calls()
